@@ -247,6 +247,14 @@ def ped_trace(task):
     for s in range(S):
         srd[s, : n_distinct[s]] = rational_reads(rnd, n_distinct[s], N, [2] * N)
         src[s, : n_distinct[s]] = rnd.randint(1, 4, size=n_distinct[s])
+    # every second trace: the unused (zero-count) slots are not trailing padding but sit before / between the observed reads
+    layout = "trailing"
+    if task["seed"] % 2 == 1 and any(n < R for n in n_distinct):
+        layout = "interleaved"
+        for s in range(S):
+            perm = np.roll(np.arange(R), 1 + s % max(1, R - 1)) if n_distinct[s] < R else np.arange(R)
+            srd[s] = srd[s][perm]
+            src[s] = src[s][perm]
     events = []
     orig = PM.log_likelihood_alleles_cached
 
@@ -273,7 +281,7 @@ def ped_trace(task):
             m.fit(srd, src)
     finally:
         PM.log_likelihood_alleles_cached = orig
-    return {"header": {"L": 1, "B": 1, "init": 2, "max": 2, "kind": "pedigree:" + task["ped"], "n_distinct": n_distinct}, "events": events}
+    return {"header": {"L": 1, "B": 1, "init": 2, "max": 2, "kind": "pedigree:" + task["ped"], "n_distinct": n_distinct, "slot_layout": layout}, "events": events}
 
 
 # ---------------------------------------------------------------- trajectory
